@@ -44,10 +44,29 @@ def _upper(self):
     return _map(self, 97, 122, -32)
 
 
+def _swapcase(self):
+    with NoTracing():
+        cps = self._codepoints
+    n = len(self)
+    out = []
+    for i in range(n):
+        cp = cps[i]
+        with NoTracing():
+            if isinstance(cp, B.SymbolicInt):
+                v = cp.var
+                out.append(B.SymbolicInt(z3.If(z3.And(v >= 65, v <= 90), v + 32,
+                                               z3.If(z3.And(v >= 97, v <= 122), v - 32, v))))
+            else:
+                out.append(cp + 32 if 65 <= cp <= 90 else (cp - 32 if 97 <= cp <= 122 else cp))
+    with NoTracing():
+        return B.LazyIntSymbolicStr(out)
+
+
 def apply(reals=False, opaque=False):
     if 'ascii' not in _applied:
         B.LazyIntSymbolicStr.lower = _lower
         B.LazyIntSymbolicStr.upper = _upper
+        B.LazyIntSymbolicStr.swapcase = _swapcase
         B.maxunicode = 127
         _applied.add('ascii')
     if opaque and 'opaque' not in _applied:
